@@ -3,8 +3,9 @@ import DarkluaModel.Rules.RemoveCompoundAssign
 # `remove_floor_division` (`src/rules/remove_floor_division.rs`)
 
 With `ScopeVisitor`: `process_statement` hands a `target //= value` statement to
-`RemoveCompoundAssignment::replace_compound_assignment` (a NESTED scope-visitor run with a fresh
-tracker, which lowers every compound assignment inside that statement, whatever its operator);
+`RemoveCompoundAssignment::replace_compound_assignment` (a NESTED scope-visitor run that uses the
+identifier tracker of this processor, which lowers every compound assignment inside that statement,
+whatever its operator);
 `process_expression` turns `a // b` into `math.floor(a / b)`, or `__DARKLUA_MATH_FLOOR(a / b)`
 when `math` is a declared local at that point (then `local __DARKLUA_MATH_FLOOR = math.floor`
 is added at the top of the file).
@@ -24,10 +25,18 @@ def buildFloorCall (value : Expr) (s : State) : Expr × State :=
   if s.tracker.isUsed "math" then (.call (.var floorName) none .tuple [value], { s with defineFloor := true })
   else (.call (.field (.var "math") "floor") none .tuple [value], s)
 
-/-- `process_statement` -/
+/-- `process_statement`: the nested lowering runs with THIS processor's identifier tracker (moved
+into the nested processor and back — fix of finding F28) -/
 def processStatement : Stmt → State → Stmt × State
-  | .cassign .idiv t v, s => (RemoveCompoundAssign.replaceCompoundAssignment (.cassign .idiv t v), s)
+  | .cassign .idiv t v, s =>
+    ((RemoveCompoundAssign.replaceCompoundAssignment (.cassign .idiv t v) s.tracker).1,
+     { s with tracker := (RemoveCompoundAssign.replaceCompoundAssignment (.cassign .idiv t v) s.tracker).2 })
   | st, s => (st, s)
+
+theorem processStatement_idiv (t v : Expr) (s : State) :
+    (processStatement (.cassign .idiv t v) s).1
+      = (Visitor.visitStmt RemoveCompoundAssign.processor true (8 * (Stmt.cassign .idiv t v).size + 64)
+          (.cassign .idiv t v) s.tracker).1 := rfl
 
 /-- `process_expression` -/
 def processExpression : Expr → State → Expr × State
